@@ -796,6 +796,38 @@ def expected_tags(jr, tr):
     return exp
 
 
+def legacy_direct(jr, t, tr):
+    """C01's reading of a legacy row's condition, evaluated in the harness (not by the code under test): the regex finds
+    a match in the upper-cased description (re.search result reported by the runner) AND every modifier holds — amounts
+    compared exactly (ticks), date ranges inclusive, month equality; a missing amount/date fails the modifier."""
+    out = []
+    for r, s in zip(jr['rules'], tr['search']):
+        ok = s == 'Y'
+        if ok and r['parsed']:
+            a, d = t.get('a'), t.get('date')
+            for c in r['aconds']:
+                if a is None:
+                    ok = False
+                    break
+                op, v = c[0], c[1:]
+                ok = ok and {'>': lambda: a > v[0], '>=': lambda: a >= v[0], '<': lambda: a < v[0], '<=': lambda: a <= v[0],
+                             '=': lambda: abs(a - v[0]) < 0.64, ':': lambda: v[0] <= a <= v[1]}[op]()
+            for c in r['dconds']:
+                if d is None:
+                    ok = False
+                    break
+                if c[0] == '=':
+                    ok = ok and d == c[1]
+                elif c[0] == ':':
+                    ok = ok and c[1] <= d <= c[2]
+                elif c[0] == 'month':
+                    ok = ok and int(d[5:7]) == c[1]
+                else:
+                    ok = ok and tr['direct'][r['id']]      # relative dates: not generated; fall back to the code's verdict
+        out.append(bool(ok))
+    return out
+
+
 def any_abort(tr):
     rs = [tr.get('fm') or {}, tr.get('ms') or {}] + list((tr.get('norm') or {}).values() if isinstance(tr.get('norm'), dict) and
                                                           'first_match' in tr.get('norm') else [])
